@@ -2,7 +2,7 @@
    Same model as C01.  Safety clauses: theorems below.  "Eventually complete" is decided as progress
    under the canonical fair schedule (completion rounds in virtual time, on the code and on the model). *)
 From Coq Require Import List ZArith Bool.
-From S2S Require Import Routing.Model Routing.Basic Routing.Inv Routing.Mono.
+From S2S Require Import Routing.Model Routing.Basic Routing.Inv Routing.Mono Routing.Complete.
 Import ListNotations.
 Open Scope Z_scope.
 
@@ -33,3 +33,26 @@ Print Assumptions C03_step_refines_actions.
 Theorem C03_acks_monotone_bounded_all_runs : forall ns nt l, wf_run (init ns nt) l -> all_acks_ok (init ns nt) l.
 Proof. intros ns nt l. apply acks_monotone_bounded; [apply inv_init|apply ls_init]. Qed.
 Print Assumptions C03_acks_monotone_bounded_all_runs.
+
+(* Completeness, the deciding step: once every target shard the receiver tracks has acknowledged up to the source's last high
+   watermark, the acknowledgement sent upstream is exactly that watermark (and it is what the receiver records as sent). *)
+Theorem C03_ack_complete_when_all_targets_caught_up : forall sr T v r,
+  0 < r_high r -> r_lastsent r <= r_high r -> all_caught_up T v r ->
+  let '(r', os) := process_ack sr T v r in
+  os = [OSrc sr (r_high r)] /\ r_lastsent r' = r_high r.
+Proof. exact process_ack_complete. Qed.
+Print Assumptions C03_ack_complete_when_all_targets_caught_up.
+
+(* ... as a statement about the receiver's action in any state of the system *)
+Theorem C03_procack_action_complete : forall fix1 x sr r T v q,
+  nth_error (recvs x) sr = Some r -> r_ackq r = (T, v) :: q ->
+  0 < r_high r -> r_lastsent r <= r_high r -> all_caught_up T v r ->
+  snd (apply_act fix1 x (AProcAck sr)) = [OSrc sr (r_high r)].
+Proof. exact procack_action_complete. Qed.
+Print Assumptions C03_procack_action_complete.
+
+(* ... and never earlier: an acknowledgement sent upstream is at most the level of every tracked target *)
+Theorem C03_ack_not_early : forall sr T v r T' v' a,
+  In (T', v') (aset T v (r_map r)) -> snd (process_ack sr T v r) = [OSrc sr a] -> a <= v'.
+Proof. exact process_ack_not_early. Qed.
+Print Assumptions C03_ack_not_early.
